@@ -3,7 +3,7 @@
    compactor of Model/LsmCompaction.v).  Specification: a sorted association list (sm_put / sm_del / sm_get / sm_scan). *)
 From Coq Require Import List NArith.
 From RV Require Import Base.Bytes Model.LsmBase Model.LsmCompaction Model.Lsm
-  Proofs.C07_Spec Proofs.C18_Layout Proofs.C18_Main Proofs.C07_Refine Proofs.C07_Corollaries.
+  Model.LsmReplay Proofs.C07_Spec Proofs.C18_Layout Proofs.C18_Apply Proofs.C18_Main Proofs.C07_Refine Proofs.C07_Corollaries Proofs.C07_Replay.
 Import ListNotations.
 Open Scope N_scope.
 
@@ -17,6 +17,21 @@ Theorem dkv_refines_map :
   forall cfg acts st os, cfg_ok cfg -> run cfg (init cfg) acts = Some (st, os) -> obs_ok [] None acts os.
 Proof. exact dkv_refines_map_proof. Qed.
 Print Assumptions dkv_refines_map.
+
+(* The same with the implementation's scheduling decisions as DATA (Model/LsmReplay.v): whether a write rotates the memtable
+   is arbitrary, and Compact may return ANY change set that is legal for the reader layout ([good_csb]: removes existing
+   tables, outputs = merge of inputs, closed towards the target level, level-0 tables oldest first).  No byte size, size
+   accounting or compaction policy appears.  This is the statement the correspondence check replays the implementation
+   against; [dkv_refines_map] is the instance where the decisions are those of the size accounting and of Compactor.Compact. *)
+Theorem dkv_replay_refines_map :
+  forall n acts st os, (2 <= n)%nat -> rrun (rinit n) acts = Some (st, os) -> robs_ok [] None acts os.
+Proof. exact replay_refines_proof. Qed.
+Print Assumptions dkv_replay_refines_map.
+
+(* the executable legality test of the check implies the semantic condition of the proofs *)
+Theorem legal_change_set_check_sound : forall ll cs, good_csb ll cs = true -> good_cs ll cs.
+Proof. exact good_csb_sound. Qed.
+Print Assumptions legal_change_set_check_sound.
 
 (* At every reachable state the layout a reader searches (level list + memtables as newest level-0 components) satisfies
    the invariant "search order is consistent with sequence numbers", its live content IS the specification map, and the
